@@ -79,6 +79,12 @@ type barrierErr struct {
 	smsg redact.RedactableString
 	// Masked error chain.
 	maskedErr error
+	// receivedDetails, when non-nil, are the safe details that were
+	// received with a decoded barrier. They are preserved as is, so
+	// that forwarding the error does not alter them (the rendering of
+	// the masked error embedded in the details may differ on a node
+	// that does not know all the error types).
+	receivedDetails []string
 }
 
 var _ error = (*barrierErr)(nil)
@@ -91,6 +97,9 @@ func (e *barrierErr) Error() string { return e.smsg.StripMarkers() }
 
 // SafeDetails reports the PII-free details from the masked error.
 func (e *barrierErr) SafeDetails() []string {
+	if e.receivedDetails != nil {
+		return e.receivedDetails
+	}
 	var details []string
 	for err := e.maskedErr; err != nil; err = errbase.UnwrapOnce(err) {
 		sd := errbase.GetSafeDetails(err)
@@ -121,7 +130,7 @@ func encodeBarrier(
 }
 
 // A barrier error is decoded exactly.
-func decodeBarrier(ctx context.Context, msg string, _ []string, payload proto.Message) error {
+func decodeBarrier(ctx context.Context, msg string, details []string, payload proto.Message) error {
 	enc, ok := payload.(*errbase.EncodedError)
 	if !ok {
 		// If this ever happens, this means some version of the library
@@ -130,7 +139,7 @@ func decodeBarrier(ctx context.Context, msg string, _ []string, payload proto.Me
 		// DecodeError use the opaque type.
 		return nil
 	}
-	return &barrierErr{smsg: redact.RedactableString(msg), maskedErr: errbase.DecodeError(ctx, *enc)}
+	return &barrierErr{smsg: redact.RedactableString(msg), maskedErr: errbase.DecodeError(ctx, *enc), receivedDetails: details}
 }
 
 // Previous versions of barrier errors.
